@@ -81,6 +81,11 @@ def full_runs(run, rnd):
                 for e in es:
                     e.information = e.information * sc
                 variants.append(('scale-information', es, vs, {}, lambda i: i, sc))
+            # a twin whose vertices share their pose OBJECTS with another graph that is optimised first (optimize rebinds, it must not write into them)
+            es, vs = fresh()
+            es_o, vs_o = copy.deepcopy(es), [Vertex(v.id, v.pose, fixed=v.fixed) for v in vs]
+            run_graph(es_o, vs_o)
+            variants.append(('shared-pose-objects', es, vs, {}, lambda i: i, 1.0))
             # an edge split into two halves
             es, vs = fresh()
             e0 = es[1]
